@@ -6,6 +6,7 @@ package file
 // driven directly; no logic of file.d lives here.
 
 import (
+	"io"
 	"os"
 	"sync"
 	"syscall"
@@ -140,8 +141,10 @@ func VerifForgetAll() {
 	}
 }
 
-// VerifReadOffset returns the position up to which the job of the given inode has read its file
-// (job.curOffset) and whether such a job exists.
+// VerifReadOffset returns the position up to which the job of the given inode has read its file and whether
+// such a job exists: the larger of job.curOffset (updated at the end of a read pass only) and the position of
+// the job's file descriptor (a worker in the middle of a pass, e.g. parked in Pipeline.In on a full pool, has
+// read ahead of curOffset).
 func VerifReadOffset(p *Plugin, ino uint64) (int64, bool) {
 	jp := p.jobProvider
 	jp.jobsMu.RLock()
@@ -150,6 +153,11 @@ func VerifReadOffset(p *Plugin, ino uint64) (int64, bool) {
 		if uint64(job.inode) == ino {
 			job.mu.Lock()
 			off := job.curOffset
+			if !job.isCompressed && job.file != nil {
+				if pos, err := job.file.Seek(0, io.SeekCurrent); err == nil && pos > off {
+					off = pos
+				}
+			}
 			job.mu.Unlock()
 			return off, true
 		}
